@@ -435,7 +435,7 @@ impl StateCheck for C17 {
             None => subj::fset("PENINSULA").clone(),
         };
         let mut plains: Vec<Plain> = vec![];
-        for (run, (k, area, lm)) in [(0.0f32, 1.0f32, false), (0.5, 3.0, true), (0.0, 1.0, false), (0.0, 1.0, false), (0.0, 1.0, false)].iter().enumerate() {
+        for (run, (k, area, lm)) in [(0.0f32, 1.0f32, false), (0.5, 3.0, true), (0.0, 1.0, false), (0.0, 1.0, false), (0.0, 1.0, false), (0.0, 1.0e6, false), (1.0, 0.002, true)].iter().enumerate() {
             out.evals += 1;
             let ep = match subj::eval(&c, &fs, *k, *area, *lm) {
                 Ok(e) => cte::incorpora_demanda_renovable_acs_nrb(e),
@@ -461,7 +461,8 @@ impl StateCheck for C17 {
                     p.scalars.remove("rer_nrb");
                 }
             }
-            if run < 2 {
+            // (runs 5 and 6: a site of 1e6 m2 and an area of 0.002 m2 — per-m2 figures 1e-6 and 500 times the absolute ones)
+            if run < 2 || run >= 5 {
                 match serde_json::to_string(&ep) {
                     Ok(j) => check_json(&ep, &j, &cfg, out),
                     Err(e) => out.viol("json_valid", &[], &cfg, format!("serialization fails: {e}"), "JSON"),
@@ -480,7 +481,7 @@ impl StateCheck for C17 {
             }
             // runs 0, 2, 3, 4 are the same evaluation under other hash keys: same tables
             if let Some(p) = p {
-                if run == 0 || run >= 2 {
+                if run == 0 || (2..5).contains(&run) {
                     plains.push(p);
                 }
             }
